@@ -90,8 +90,8 @@ package parser
 //@   requires nonnil: p != nil
 //@   pure
 //   (stated over the buffer as it was on entry: the function does not change it)
-//@   ensures sound:    ok ==> old(endof(len(ReadTypes), p, ReadTypes)) >= 0
-//@   ensures complete: !ok ==> exists(k, 1, len(ReadTypes) + 1, old(endof(k, p, ReadTypes)) < 0)
+//@   ensures-local sound:    ok ==> old(endof(len(ReadTypes), p, ReadTypes)) >= 0
+//@   ensures-local complete: !ok ==> exists(k, 1, len(ReadTypes) + 1, old(endof(k, p, ReadTypes)) < 0)
 //@   loop "for _, Type := range ReadTypes"
 //@     invariant bound: 0 <= BytesRead && BytesRead <= TotalSize && TotalSize == len(p.buffer)
 //@     invariant same:  sameslice(p.buffer, old(p.buffer)) && p.buffer == old(p.buffer) && p.bigEndian == old(p.bigEndian)
